@@ -143,6 +143,8 @@ public:
 
   String& prepend(const String& str)
   {
+    if(&str == this)
+      return prepend(String(str));
     String copy(*this);
     usize newLen = str.data->len + copy.data->len;
     detach(0, newLen);
